@@ -240,7 +240,8 @@ theorem merge_sound_empty (hq : QRefl Q) {D : List DName} (k1 k2 km : LocalKind)
     (vs1 R : List Expr) (rest : List Stmt) (g : {N : NumOps} → List (Val N) → List (Val N))
     (hR : ∀ (N : NumOps) (call : CallFn N) (ρ : ExtOracle N) (k : Nat) (env : Env N) (σ : State N),
       evalEs call ρ k env R σ = (evalEs call ρ k env vs1 σ).bind fun ws s => .ok (g ws) s)
-    (hg : ∀ (N : NumOps) (ws : List (Val N)),
+    (hg : ∀ (N : NumOps) (call : CallFn N) (ρ : ExtOracle N) (k : Nat) (env : Env N) (σ s : State N)
+      (ws : List (Val N)), evalEs call ρ k env vs1 σ = .ok ws s →
       padTake (ns1.length + ns2.length) (g ws) = padTake ns1.length ws ++ List.replicate ns2.length .nil)
     (hn1 : NoRefEs D vs1) (hnrest : NoRefSs D rest)
     (hw1 : ∀ n ∈ ns1.map TName.name, DName.wat n ∉ D) (hw2 : ∀ n ∈ ns2.map TName.name, DName.wat n ∉ D) :
@@ -252,7 +253,7 @@ theorem merge_sound_empty (hq : QRefl Q) {D : List DName} (k1 k2 km : LocalKind)
   have h1 := reflEs hq vs1 D hn1 N call ρ k env env' σ σ' β hp hs he
   revert h1
   generalize evalEs call ρ k env vs1 σ = rl
-  generalize evalEs call ρ k env' vs1 σ' = rr
+  generalize hrr : evalEs call ρ k env' vs1 σ' = rr
   intro h1
   cases rl <;> cases rr <;> simp only [HeapU.RRel] at h1
   · rename_i ws1 s1 ws1' s1'
@@ -265,7 +266,7 @@ theorem merge_sound_empty (hq : QRefl Q) {D : List DName} (k1 k2 km : LocalKind)
             (bindLocals (ns1.map TName.name) ws1' env'.locals s1').1
             (bindLocals (ns1.map TName.name) ws1' env'.locals s1').2 := by
       rw [← bindLocals_padTake (List.map TName.name (ns1 ++ ns2)) (g ws1'), List.map_append, List.length_append,
-        hlen1, hlen2, hg, bindLocals_append, hlen1, List.drop_left' (length_padTake _ _)]
+        hlen1, hlen2, hg N call ρ k env' σ' s1' ws1' hrr, bindLocals_append, hlen1, List.drop_left' (length_padTake _ _)]
       rw [← bindLocals_padTake (ns1.map TName.name) (padTake ns1.length ws1' ++ _), hlen1,
         padTake_append _ _ _ (length_padTake _ _), ← hlen1, bindLocals_padTake]
       rw [← bindLocals_padTake (ns2.map TName.name) (List.replicate _ _), hlen2, padTake_replicate, ← hlen2,
